@@ -186,7 +186,9 @@ def gx_run(d, cases, timeout=600, jobs=None):
         lines = [json.loads(x) for x in o.splitlines() if x.strip()]
         if len(lines) != len(shards[k]):
             # the process died (panic outside recover / os.Exit): mark the case after the last answer
-            lines.append({"id": shards[k][len(lines)]["id"], "crashed": True, "rc": rc, "stderr": e[-4000:]})
+            # (a reported hang ends the process by itself: nothing crashed)
+            if not (lines and lines[-1].get("hang")):
+                lines.append({"id": shards[k][len(lines)]["id"], "crashed": True, "rc": rc, "stderr": e[-4000:]})
             while len(lines) < len(shards[k]):
                 lines.append({"id": shards[k][len(lines)]["id"], "skipped": True})
         per.append(lines)
@@ -194,6 +196,12 @@ def gx_run(d, cases, timeout=600, jobs=None):
     for k in range(jobs):
         for j, o in enumerate(per[k]):
             res[k + j * jobs] = o
+    # cases that were not reached because their process died or was stopped by the watchdog run again in fresh processes
+    left = [i for i, o in enumerate(res) if o.get("skipped")]
+    if left and len(left) < len(cases):
+        again = gx_run(d, [cases[i] for i in left], timeout=timeout, jobs=min(jobs, max(1, len(left) // 5)))
+        for i, o in zip(left, again):
+            res[i] = o
     return res
 
 
